@@ -198,6 +198,12 @@ func facts(f *hc.Facts) {
 		f.Raw("def coreCtors : List (Option Nat × Bool × List (List Nat × Option (Nat × Nat))) := [\n" + strings.Join(rows, ",\n") + "]")
 		f.Raw("def coreIfaces : List (List Nat) := [" + strings.Join(irows, ", ") + "]")
 	}
+	f.Raw(fmt.Sprintf("def schemaDigest : Nat := %d -- Schema.digest of the translated schema (harness/c21/schema.go Digest)", s.Digest()))
+	if out := factsOut(); out != "" {
+		if err := writeFullSchema(s, filepath.Dir(out)); err != nil {
+			f.Missing("fullSchemaFiles", err.Error())
+		}
+	}
 	text := s.Text()
 	sum := sha256.Sum256([]byte(text))
 	f.Str("schemaSha256", hex.EncodeToString(sum[:]), "sha256 of Gen/C21.schema")
@@ -258,7 +264,7 @@ func run(c *hc.Ctx) error {
 		c.Differ("schema-vs-go-types", e, "", "the translated schema disagrees with the Go types")
 	}
 	var q []pending
-	q = append(q, pending{"wf", "Schema.wf on the regenerated schema", fmt.Sprintf("ok %d %d core=%d/%d", len(s.Ctors), len(s.Ifaces), coreN(s, true), coreN(s, false))})
+	q = append(q, pending{"wf", "Schema.wf on the regenerated schema", fmt.Sprintf("ok %d %d core=%d/%d digest=%d", len(s.Ctors), len(s.Ifaces), coreN(s, true), coreN(s, false), s.Digest())})
 	for _, ct := range s.Ctors {
 		if ct.Bad != "" {
 			c.Note("translator: %s.%s: %s", ct.Pkg, ct.GoName, ct.Bad)
@@ -764,4 +770,108 @@ func reexecWithTable() {
 	if err := syscall.Exec(full, append([]string{full}, os.Args[1:]...), os.Environ()); err != nil {
 		fail("exec: " + err.Error())
 	}
+}
+
+// writeFullSchema writes the whole translated schema as Lean terms (for the kernel) next to the facts
+// file: Gen/C21FullA..C.lean (constructor rows, built in parallel) and Gen/C21Full.lean (interfaces,
+// the per-interface (constructor, id) certificate, the ids in chunks, `fullSchema`).
+func writeFullSchema(s *Schema, dir string) error {
+	row := func(c *Ctor) string {
+		var fs []string
+		for _, fl := range c.Fields {
+			cond := "none"
+			if fl.Cond {
+				cond = fmt.Sprintf("some (%d, %d)", fl.FlagIdx, fl.Bit)
+			}
+			fs = append(fs, fmt.Sprintf("(%s, %s)", tyCodes(fl.Ty), cond))
+		}
+		id := "none"
+		if c.HasID {
+			id = fmt.Sprintf("some 0x%08x", c.ID)
+		}
+		return fmt.Sprintf("  (%s, %v, [%s])", id, c.Bad != "", strings.Join(fs, ", "))
+	}
+	const perPart = 100
+	nParts := (len(s.Ctors) + perPart - 1) / perPart
+	files := []string{"A", "B", "C"}
+	per := (nParts + len(files) - 1) / len(files)
+	write := func(name, body string) error {
+		p := filepath.Join(dir, name)
+		if old, err := os.ReadFile(p); err == nil && string(old) == body {
+			return nil
+		}
+		return os.WriteFile(p, []byte(body), 0o644)
+	}
+	var partNames []string
+	for fi, fn := range files {
+		var b strings.Builder
+		b.WriteString("/- GENERATED by harness/c21 facts. Do not edit. -/\nimport TdModel.Model.C21\nnamespace TdModel.Facts.C21Full\n")
+		for p := fi * per; p < (fi+1)*per && p < nParts; p++ {
+			lo, hi := p*perPart, (p+1)*perPart
+			if hi > len(s.Ctors) {
+				hi = len(s.Ctors)
+			}
+			var rows []string
+			for _, c := range s.Ctors[lo:hi] {
+				rows = append(rows, row(c))
+			}
+			fmt.Fprintf(&b, "def part%d : List (Option Nat × Bool × List (List Nat × Option (Nat × Nat))) := [\n%s]\n", p, strings.Join(rows, ",\n"))
+			partNames = append(partNames, fmt.Sprintf("part%d", p))
+		}
+		b.WriteString("end TdModel.Facts.C21Full\n")
+		if err := write("C21Full"+fn+".lean", b.String()); err != nil {
+			return err
+		}
+	}
+	var b strings.Builder
+	b.WriteString("/- GENERATED by harness/c21 facts. Do not edit. -/\nimport TdModel.Gen.C21FullA\nimport TdModel.Gen.C21FullB\nimport TdModel.Gen.C21FullC\nnamespace TdModel.Facts.C21Full\nopen TdModel.C21\n")
+	fmt.Fprintf(&b, "def allCtors := List.flatten [%s]\n", strings.Join(partNames, ", "))
+	chunked := func(name, typ string, items []string, per int) {
+		var names []string
+		for i := 0; i < len(items); i += per {
+			j := i + per
+			if j > len(items) {
+				j = len(items)
+			}
+			n := fmt.Sprintf("%s_%d", name, i/per)
+			fmt.Fprintf(&b, "def %s : %s := [%s]\n", n, typ, strings.Join(items[i:j], ", "))
+			names = append(names, n)
+		}
+		fmt.Fprintf(&b, "def %s : %s := List.flatten [%s]\n", name, typ, strings.Join(names, ", "))
+	}
+	var ifItems, certItems []string
+	for _, i := range s.Ifaces {
+		var rs, ps []string
+		for _, r := range i.Refs {
+			rs = append(rs, fmt.Sprint(r))
+			ps = append(ps, fmt.Sprintf("(%d, 0x%08x)", r, s.Ctors[r].ID))
+		}
+		ifItems = append(ifItems, "["+strings.Join(rs, ", ")+"]")
+		certItems = append(certItems, "["+strings.Join(ps, ", ")+"]")
+	}
+	chunked("allIfaces", "List (List Nat)", ifItems, 40)
+	chunked("cert", "List (List (Nat × Nat))", certItems, 40)
+	const idsPer = 52
+	var chunkNames []string
+	for i := 0; i < len(s.Ctors); i += idsPer {
+		j := i + idsPer
+		if j > len(s.Ctors) {
+			j = len(s.Ctors)
+		}
+		var ids []string
+		for _, c := range s.Ctors[i:j] {
+			if c.HasID {
+				ids = append(ids, fmt.Sprintf("some 0x%08x", c.ID))
+			} else {
+				ids = append(ids, "none")
+			}
+		}
+		n := fmt.Sprintf("ids_%d", i/idsPer)
+		fmt.Fprintf(&b, "def %s : Nat × List (Option Nat) := (%d, [%s])\n", n, j-i, strings.Join(ids, ", "))
+		chunkNames = append(chunkNames, n)
+	}
+	fmt.Fprintf(&b, "def idChunks : List (Nat × List (Option Nat)) := [%s]\n", strings.Join(chunkNames, ", "))
+	b.WriteString("/-- the whole translated schema (mt, e2e, tg) as a Lean term -/\ndef fullSchema : Schema := { ctors := (allCtors.map ctorOfCodes).toArray, ifaces := allIfaces.toArray }\n")
+	b.WriteString("end TdModel.Facts.C21Full\n")
+	return write("C21Full.lean", b.String())
 }
